@@ -216,8 +216,10 @@ def clone_value(v, memo=None):
         o = Obj(v.cls)
         memo[id(v)] = o
         o.attrs = {k: clone_value(x, memo) for k, x in v.attrs.items()}
-        if hasattr(v, 'tuple_items'):
-            o.tuple_items = [clone_value(x, memo) for x in v.tuple_items]
+        for k, x in v.__dict__.items():
+            if k in ('cls', 'attrs'):
+                continue
+            o.__dict__[k] = [clone_value(y, memo) for y in x] if k == 'tuple_items' else x
         return o
     if isinstance(v, PList):
         o = PList(None, v.e, v.ety, v.cls)
